@@ -176,7 +176,10 @@ def _propagate(fn: ast.FunctionDef, prog: Optional[Program] = None) -> None:
                 if counts.get(name, 0) != 1 or name in params or name in skip or not _is_pure(n.value):
                     continue
                 free = {x.id for x in ast.walk(n.value) if isinstance(x, ast.Name)}
-                if name in free or any(counts.get(f, 0) > 1 for f in free):
+                if name in free:
+                    continue
+                rebound = [f for f in free if counts.get(f, 0) > 1]
+                if rebound and not _stable_within_loop(fn, n, name, rebound):
                     continue
                 # the value must not depend on state that the function itself changes (attribute or element stores)
                 read_attrs = {x.attr for x in ast.walk(n.value) if isinstance(x, ast.Attribute)}
@@ -249,6 +252,35 @@ def _eval_order(fn: ast.AST) -> Dict[int, int]:
         order[id(n)] = len(order) + 1
     visit(fn)
     return order
+
+
+def _stable_within_loop(fn: ast.AST, definition: ast.Assign, name: str, rebound: List[str]) -> bool:
+    """
+    The free variables `rebound` are assigned several times in the function.  The definition may still be propagated if an
+    enclosing for loop binds each of them (as loop target), contains the definition and every use of `name`, and contains no other
+    assignment to them.
+    """
+    uses = [x for x in ast.walk(fn) if isinstance(x, ast.Name) and x.id == name and isinstance(x.ctx, ast.Load)]
+    for f in rebound:
+        ok = False
+        for lp in ast.walk(fn):
+            if not isinstance(lp, (ast.For, ast.comprehension)):
+                continue
+            if isinstance(lp, ast.comprehension):
+                continue
+            targets = {x.id for x in ast.walk(lp.target) if isinstance(x, ast.Name)}
+            if f not in targets:
+                continue
+            inside = {id(x) for st in lp.body for x in ast.walk(st)}
+            if id(definition) not in inside or not all(id(u) in inside for u in uses):
+                continue
+            other = [x for st in lp.body for x in ast.walk(st) if isinstance(x, ast.Name) and x.id == f and isinstance(x.ctx, (ast.Store, ast.Del))]
+            if not other:
+                ok = True
+                break
+        if not ok:
+            return False
+    return True
 
 
 def _cheap(e: ast.AST) -> bool:
